@@ -6,7 +6,6 @@ import (
 	"errors"
 	"fmt"
 	"io"
-	"os"
 	"sort"
 	"strings"
 	"time"
@@ -602,9 +601,6 @@ func groupScenario(s *Sim, params map[string]string) {
 	s.OnStep(st.checkCommits)
 
 	expiredCtx := t.Intn("expctx", 3) == 0
-	if os.Getenv("VERIF_NOEXP") != "" {
-		expiredCtx = false
-	}
 	app := func(gr *gReader) {
 		s.Go(fmt.Sprintf("app%d", gr.k), func() {
 			defer func() { gr.appDone = true; s.Tracef("app%d exits closed=%v crashed=%v", gr.k, gr.closed, gr.crashed) }()
